@@ -44,6 +44,24 @@ func (fx *fnExec) callMods(in ssa.CallInstruction, allocs map[*ssa.Alloc]bool, k
 		}
 		keys[allocKey] = true
 	}
+	havocAllMod := func() {
+		mine := map[string]bool{}
+		for k := range ex.HavocCallsC.HavocExceptKeys {
+			mine["!"+k] = true
+		}
+		if !keys[havocAllKey] {
+			keys[havocAllKey] = true
+			for k := range mine {
+				keys[k] = true
+			}
+			return
+		}
+		for k := range keys {
+			if len(k) > 0 && k[0] == '!' && !mine[k] {
+				delete(keys, k)
+			}
+		}
+	}
 	var callees []*ssa.Function
 	if cc.IsInvoke() {
 		if named, ok := cc.Value.Type().(*types.Named); ok && named.Obj().Pkg() != nil && strings.HasPrefix(named.Obj().Pkg().Path(), modPath) {
@@ -52,6 +70,10 @@ func (fx *fnExec) callMods(in ssa.CallInstruction, allocs map[*ssa.Alloc]bool, k
 			}
 		}
 		if len(callees) == 0 {
+			if ex.HavocCallsC != nil {
+				havocAllMod()
+				return
+			}
 			argHavoc()
 			return
 		}
@@ -59,6 +81,10 @@ func (fx *fnExec) callMods(in ssa.CallInstruction, allocs map[*ssa.Alloc]bool, k
 		callees = []*ssa.Function{callee}
 	} else {
 		// closure value: find MakeClosure in the same function if possible
+		if ex.HavocCallsC != nil {
+			havocAllMod()
+			return
+		}
 		argHavoc()
 		return
 	}
@@ -83,10 +109,28 @@ func (fx *fnExec) callMods(in ssa.CallInstruction, allocs map[*ssa.Alloc]bool, k
 			continue
 		}
 		if callee.Blocks == nil || depth > 6 {
+			if ex.HavocCallsC != nil {
+				havocAllMod()
+				continue
+			}
 			argHavoc()
 			continue
 		}
 		path := pkgPathOf(callee)
+		if ex.HavocCallsC != nil {
+			// same decision as at the call: not inlinable -> abstracted by whole-heap havoc
+			inl := (c != nil && c.Inline) || inlinePkgs[path] || callee.Parent() != nil
+			if !inl && inRepo(callee) && !hasLoops(callee) && len(callee.Blocks) <= havocInlineBlocks {
+				inl = true
+			}
+			if _, isClo := cc.Value.(*ssa.MakeClosure); isClo {
+				inl = true
+			}
+			if !inl {
+				havocAllMod()
+				continue
+			}
+		}
 		if (c != nil && c.Inline) || inlinePkgs[path] || inRepo(callee) {
 			// pointer arguments to locals of the caller
 			for _, a := range cc.Args {
